@@ -9,6 +9,15 @@ TECH = "contract-based deductive verification: VCs generated over go/ssa of /rep
 
 # id -> (claim text, level note, design ref)
 CLAIMS = {
+    "C01": ("row merge (MergeRows and helpers) verified for all inputs against the documented merge M written as a spec function; M is commutative, idempotent and "
+            "invariant-preserving for all rows, associative / absorbing in the proved cases (no delete; no re-insert after delete on fully assigned rows); the general "
+            "associativity and absorption laws fail on the real code and are recorded as known findings; kv value join verified",
+            "absolute times within +-2^62 ns (precondition); mast DiffIter/Insert and the fold over versions (mergeRoots) are not yet under contract; the generic fold lemma is not mechanised", "DESIGN §6 C01"),
+    "C16": ("node codec: marshalProto and unmarshalProto verified element-wise inverse (keys, the four value fields, child links including absent ones) for every node shape, "
+            "all type assertions and indices safe; protobuf transport assumed faithful",
+            "proto.Marshal/Unmarshal assumed (trusted/proto.contracts); flush-before-publish and immutability of stored objects are not yet under contract", "DESIGN §6 C16"),
+    "C20": ("New verified for every argument list: no panic, duplicated/unknown options rejected, numeric options parsed base 0 into the right field, registry changed only on success",
+            "strings.SplitN, strconv.ParseInt assumed; UnquoteAll and the columns grammar (combinator parser) are outside the subset; convertSchema and OpenKV are assumed contracts at this point", "DESIGN §6 C20"),
     "C17": ("kv value join (LastWriteWins / firstTombstoneWins / Tombstoned) verified against the documented rule for all inputs; "
             "join laws as SMT lemmas; update/Get/Diff glue contracts",
             "TraceHistory and the gob/json root codecs are not decided; mast.Mast Get/Insert assumed (finite-map contract)", "DESIGN §6 C17"),
